@@ -257,3 +257,75 @@ def symbolic_object(ev: SerEval, repo: Repo, run: Run, ci: ClassInfo, variant: d
 def expected_field(v: Any, run: Run) -> Any:
     """what the decoder must hand back for an original field value."""
     return v
+
+
+# ------------------------------------------------------------------ ownership of the encoded buffer
+def encoders_return_fresh_buffers(chk, repo: Repo, classes: list[ClassInfo]) -> set[str]:
+    """CEMILData.to_knx ORs the TPCI into octet 0 of what payload.to_knx() returned - in place.  Every service's
+    to_knx therefore has to return a buffer nobody else holds: built in the call (call result, concatenation, slice,
+    literal), never an attribute or global.  A shared buffer keeps the transport bits of the frame sent before: the
+    next PDU of that service re-encodes to other octets than it was decoded from.  Returns the classes that fail (their
+    codec is not evaluated further - the aliasing is the finding)."""
+    from ..astx import call_name, walk_local
+    cf = repo.func("xknx.cemi.cemi_frame", "CEMILData.to_knx")
+    mutates = any(isinstance(n, (ast.AugAssign, ast.Assign)) and any(isinstance(t, ast.Subscript) for t in ([n.target] if isinstance(n, ast.AugAssign) else n.targets)) for n in walk_local(cf.node))
+    chk.count("in-place writes to the encoded APDU in CEMILData.to_knx", int(mutates))
+    if not mutates:
+        return set()
+
+    def fresh(fi, e: ast.AST, cfg: CFG, at: int, depth: int = 3) -> str | None:
+        """None if fresh, else why not"""
+        v = cfg.symbolic(at, e)
+        if isinstance(v, (ast.BinOp, ast.JoinedStr, ast.Constant, ast.List, ast.Tuple, ast.ListComp)):
+            return None
+        if isinstance(v, ast.Subscript):
+            return None if isinstance(v.slice, ast.Slice) else f"`{ast.unparse(v)}` is an element of a container that lives on"
+        if isinstance(v, ast.IfExp):
+            return fresh(fi, v.body, cfg, at, depth) or fresh(fi, v.orelse, cfg, at, depth)
+        if isinstance(v, ast.Call):
+            n = call_name(v)
+            callee = None
+            if isinstance(v.func, ast.Name):
+                r = repo.resolve(fi.module.name, v.func.id)
+                callee = r if hasattr(r, "node") and isinstance(getattr(r, "node", None), (ast.FunctionDef, ast.AsyncFunctionDef)) else None
+            elif isinstance(v.func, ast.Attribute) and isinstance(v.func.value, ast.Name) and v.func.value.id in ("self", "cls") and fi.cls is not None:
+                callee = repo.lookup_method(fi.cls, v.func.attr)
+            if callee is not None and depth > 0:
+                cc = CFG(callee.node)
+                for rn in cc.nodes:
+                    if rn.kind == "stmt" and isinstance(rn.ast, ast.Return) and rn.ast.value is not None:
+                        why = fresh(callee, rn.ast.value, cc, rn.id, depth - 1)
+                        if why:
+                            return f"{n}() returns a buffer that lives on: {why}"
+            return None
+        if isinstance(v, ast.Name):
+            if v.id.startswith("φ_"):
+                nm = v.id[2:]
+                for d in cfg.reaching_defs()[at].get(nm, ()):
+                    st = cfg.nodes[d].ast if d >= 0 else None
+                    if isinstance(st, (ast.Assign, ast.AnnAssign)) and st.value is not None:
+                        why = fresh(fi, st.value, cfg, d, depth)
+                        if why:
+                            return why
+                return None
+            params = {a.arg for a in fi.node.args.args + fi.node.args.kwonlyargs}
+            return f"`{v.id}` is " + ("a parameter (the caller's object)" if v.id in params else "a module-level object")
+        if isinstance(v, ast.Attribute):
+            return f"`{ast.unparse(v)}` is an attribute - the same object is returned by every call"
+        return None
+    stale: set[str] = set()
+    n = 0
+    for c in classes:
+        tk = c.methods.get("to_knx")
+        if tk is None:
+            continue
+        cfg = CFG(tk.node)
+        for rn in cfg.nodes:
+            if rn.kind == "stmt" and isinstance(rn.ast, ast.Return) and rn.ast.value is not None:
+                n += 1
+                why = fresh(tk, rn.ast.value, cfg, rn.id)
+                if why:
+                    stale.add(c.name)
+                chk.ob("encoder-returns-a-buffer-of-its-own", tk.site(rn.ast), why is None, f"{c.name}.to_knx returns `{ast.unparse(rn.ast.value)[:80]}`" + (f": {why}; CEMILData.to_knx writes the transport bits into it in place" if why else ": built in the call"), key=f"fresh|{c.name}")
+    chk.floor("encoder return sites checked for aliasing", n, 80)
+    return stale
